@@ -589,32 +589,52 @@ def f3(prog):
                 if exp is None and cls not in ("not-decoded", "error"):
                     findings.append({"key": key, "where": "libzwerg/atval.cc:%s" % g["l"].split(":")[-1],
                                      "msg": "encoding %s (not an integer encoding) is decoded as `%s`" % (nm, cls), "detail": None})
-    # enumerated attributes -> constant family
+    # enumerated attributes -> constant family: handle_at_dependent_value is interpreted on an attribute of each kind in a one-byte data
+    # form; the domain it hands to the unsigned decoder must be the one whose names carry the attribute's DWARF prefix (DW_LANG_ for
+    # DW_AT_language, ...).  No assumption about how the function is organised (a switch, a lookup helper, an if-chain).
+    from cxxobj import CxxEvaluator, Obj, Struct, Sym, OutOfBounds
+    from absint import Thrown
     W = writer_tables(prog)
     h = prog.func("(anonymous namespace)::handle_at_dependent_value")
-    sw = [x for x in h["body"]["s"] if x.get("k") == "switch"][0]
-    names = _enum_names(prog, "DW_AT_")
+    acodes = {c["n"]: c["v"] for e in prog.enums.values() if e["file"] == "/usr/include/dwarf.h" for c in e["consts"] if c["n"].startswith("DW_AT_")}
+    fcodes = {c["n"]: c["v"] for e in prog.enums.values() if e["file"] == "/usr/include/dwarf.h" for c in e["consts"] if c["n"].startswith("DW_FORM_")}
+    hooks = {
+        "dwarf_whatattr": lambda ev, o, a: a[0].code, "dwarf_whatform": lambda ev, o, a: a[0].form,
+        "(anonymous namespace)::atval_unsigned_with_domain": lambda ev, o, a: ("dom", a[1]),
+        "(anonymous namespace)::atval_unsigned": lambda ev, o, a: ("dom", ("domfn", "dec_constant_dom")),
+        "(anonymous namespace)::atval_signed": lambda ev, o, a: ("signed",),
+        "value_die::get_die": lambda ev, o, a: o.m_die,
+        "throw_libdw": lambda ev, o, a: (_ for _ in ()).throw(Thrown("libdw error")),
+    }
+    for d in W:
+        hooks[d] = (lambda d: lambda ev, o, a: ("domfn", d))(d)
+    ev4 = CxxEvaluator(hooks, {}, prog=prog)
     n = 0
-    for labels, stmts in switch_groups(sw):
-        doms = []
-        for s in stmts:
-            for c in calls(s):
-                if c.get("fn") == "atval_unsigned_with_domain":
-                    d = unwrap(c["a"][1])
-                    if isinstance(d, dict) and d.get("k") == "call":
-                        doms.append(d["f"])
-        for l in labels:
-            if l == "default":
-                continue
-            for nm in names.get(intval(l), []):
-                if nm in AT_ENUM_PREFIX:
-                    n += 1
-                    key = "F4:" + nm
-                    pref = [W[d]["prefix"] for d in doms if d in W]
-                    inst.append((key, {"domain": doms, "prefix": pref, "expected_prefix": AT_ENUM_PREFIX[nm]}))
-                    if pref != [AT_ENUM_PREFIX[nm]]:
-                        findings.append({"key": key, "where": "libzwerg/atval.cc:%s" % h["l"].split(":")[-1],
-                                         "msg": "%s values are rendered in constant family %s, expected %s*" % (nm, pref or doms, AT_ENUM_PREFIX[nm]), "detail": None})
+    for nm, want_prefix in sorted(AT_ENUM_PREFIX.items()):
+        if nm not in acodes:
+            raise Broken("%s is not in the system dwarf.h" % nm)
+        attr = Struct("Dwarf_Attribute", {"code": acodes[nm], "form": fcodes["DW_FORM_data1"], "valp": 1, "cu": None})
+        vd = Obj("value_die")
+        vd.m_die = Struct("Dwarf_Die", {"cu": None})
+        key = "F4:" + nm
+        try:
+            ev4.steps = 0
+            r = ev4.call(h, None, [attr, vd, Sym.of("dwctx")])
+        except Thrown as x:
+            r = ("error", str(x))
+        except OutOfBounds as x:
+            raise Broken("handle_at_dependent_value cannot be evaluated for %s: %s" % (nm, x))
+        n += 1
+        dom = r[1] if isinstance(r, tuple) and len(r) == 2 and r[0] == "dom" else None
+        if isinstance(dom, tuple) and dom and dom[0] == "domfn":
+            dn = dom[1]
+            pref = [W[dn]["prefix"]] if dn in W else []
+        else:
+            dn, pref = repr(r), []
+        inst.append((key, {"domain": dn, "prefix": pref, "expected_prefix": want_prefix}))
+        if pref != [want_prefix]:
+            findings.append({"key": key, "where": "libzwerg/atval.cc:%s" % h["l"].split(":")[-1],
+                             "msg": "%s values are rendered in constant family %s, expected %s*" % (nm, pref or dn, want_prefix), "detail": None})
     if n < 10:
         raise Broken("only %d enumerated attributes dispatched (floor 10)" % n)
     return inst, findings
